@@ -120,6 +120,8 @@ GROUPS = {
                         "isStep := false, cancelled := {_canceled}, dead := false, act := 0, fn := 0 }} : Mesa.Devs.Ev)"),
             Rec("EventList", {"_events": ("L", ("R", "SimEvent"))}),
             Rec("SimulatorRec", {"time": "Int"}),
+            # the part of a Simulator that run_next_event / run_until read and write; `model` is only tested for None
+            Rec("SimRun", {"time": "Int", "model": ("O", "Int"), "event_list": ("R", "EventList")}),
         ],
         "fns": [
             Fn("C14", "mesa/experimental/devs/eventlist.py", "SimulationEvent.CANCELED", "CANCELED", {}, self_rec="SimEvent"),
@@ -136,6 +138,22 @@ GROUPS = {
             # simulator.py: `self.run_until(end_time)` is the effect (end_time)
             Fn("C15", "mesa/experimental/devs/simulator.py", "Simulator.run_for", "run_for", {"time_delta": "Int"},
                self_rec="SimulatorRec", effects={"self.run_until": ("T", "Int")}, effect_params={"self.run_until": ("end_time",)}),
+            # `event.execute()` is the effect "this event is executed" (the receiver is recorded); `self.event_list.pop_event()` in
+            # a try / except IndexError is a match on the result of the translated pop_event
+            Fn("C14", "mesa/experimental/devs/simulator.py", "Simulator.run_next_event", "run_next_event", {}, self_rec="SimRun",
+               state={"self.time": "Int", "self.event_list._events": ("L", ("R", "SimEvent"))},
+               effects={"event.execute": ("T", ("R", "SimEvent"))}, effect_self=("event.execute",),
+               obj_calls={"self.event_list.pop_event": ("pop_event", "EventList", ("self.event_list._events",), "({0}.length + 1)")}),
+            # `event.execute()` re-enters the simulator: a function parameter `exec_` acting on (time, _events, world_); the fuel of the
+            # inner pop_event is its own termination measure (C14_gen_pop_event_fuel_adequate), `fuel` bounds the `while True`;
+            # `self._schedule_event(event)` (re-scheduling the popped event) is the translated add_event: its `_check_unit` accepted
+            # this very event when it was scheduled and is not re-modelled
+            Fn("C14", "mesa/experimental/devs/simulator.py", "Simulator.run_until", "run_until", {"end_time": "Int"}, self_rec="SimRun",
+               state={"self.time": "Int", "self.event_list._events": ("L", ("R", "SimEvent"))},
+               callback={"event.execute": "exec_"}, callback_recv_ty=("R", "SimEvent"),
+               state_calls={"self._schedule_event": ("add_event", "EventList", ("self.event_list._events",))},
+               obj_calls={"self.event_list.pop_event": ("pop_event", "EventList", ("self.event_list._events",), "({0}.length + 1)")},
+               fuel=True),
         ],
     },
     "Steps": {
@@ -195,19 +213,21 @@ REGISTRY = {
     "C14": {
         "groups": ["Devs"],
         "functions": ["SimulationEvent.CANCELED", "SimulationEvent.__lt__", "EventList.add_event", "EventList.pop_event",
-                      "EventList.__len__", "EventList.is_empty", "EventList.peak_ahead"],
+                      "EventList.__len__", "EventList.is_empty", "EventList.peak_ahead", "Simulator.run_next_event", "Simulator.run_until"],
         "lean_modules": ["MesaModel.Proofs.XlateDevs"],
         "theorems": ["Mesa.Devs." + t for t in (
             "C14_gen_CANCELED_eq_model", "C14_gen_lt_eq_model", "C14_gen_add_event_eq_model", "C14_gen_pop_event_eq_model",
             "C14_gen_pop_event_fuel_adequate", "C14_pop_event_index_iff_generated",
             "C14_gen_len_eq_model", "C14_gen_is_empty_eq_model", "C14_add_event_generated", "C14_pop_event_generated",
-            "C14_gen_peak_ahead_eq_model")],
+            "C14_gen_peak_ahead_eq_model",
+            "C14_gen_run_next_event_eq_model", "C14_gen_run_next_event_guard", "C14_run_next_event_generated",
+            "C14_gen_run_until_eq_model", "C14_gen_run_until_guard", "C14_run_until_generated")],
     },
     "C15": {
         "groups": ["Devs"],
-        "functions": ["Simulator.run_for"],
+        "functions": ["Simulator.run_for", "Simulator.run_until"],
         "lean_modules": ["MesaModel.Proofs.XlateDevs"],
-        "theorems": ["Mesa.Devs.C15_gen_run_for_eq_model"],
+        "theorems": ["Mesa.Devs.C15_gen_run_for_eq_model", "Mesa.Devs.C14_gen_run_until_eq_model", "Mesa.Devs.C15_chunking_generated"],
     },
     "C09": {
         "groups": ["Legacy"],
